@@ -1112,8 +1112,12 @@ func (e *env) suitePSS() {
 					continue
 				}
 				if ok, _ := e.agreeVerify("VerifyPSS", "other-salt-length",
-					func() error { return zrsa.VerifyPSS(&e.zk.PublicKey, h, digest, ssig, &zrsa.PSSOptions{SaltLength: wsl}) },
-					func() error { return stdrsa.VerifyPSS(&std.PublicKey, h, digest, ssig, &stdrsa.PSSOptions{SaltLength: wsl}) },
+					func() error {
+						return zrsa.VerifyPSS(&e.zk.PublicKey, h, digest, ssig, &zrsa.PSSOptions{SaltLength: wsl})
+					},
+					func() error {
+						return stdrsa.VerifyPSS(&std.PublicKey, h, digest, ssig, &stdrsa.PSSOptions{SaltLength: wsl})
+					},
 					append(in, "signature", ssig, "verify_salt_length", wsl)...); ok {
 					e.nontrivial("pss-othersalt", hashName(h), md.name, wsl, digest)
 				}
@@ -1348,7 +1352,9 @@ func (e *env) suiteCrafted() {
 				for vi, vsl := range []int{sl, stdrsa.PSSSaltLengthAuto} {
 					ok2, acc := e.agreeVerify("VerifyPSS", "crafted-block:"+m.name,
 						func() error { return zrsa.VerifyPSS(&e.zk.PublicKey, ph, pd, sig, &zrsa.PSSOptions{SaltLength: vsl}) },
-						func() error { return stdrsa.VerifyPSS(&std.PublicKey, ph, pd, sig, &stdrsa.PSSOptions{SaltLength: vsl}) },
+						func() error {
+							return stdrsa.VerifyPSS(&std.PublicKey, ph, pd, sig, &stdrsa.PSSOptions{SaltLength: vsl})
+						},
 						"hash", hashName(ph), "digest", pd, "crafted", m.name, "em", b, "signature", sig, "verify_salt_length", vsl)
 					if ok2 {
 						e.nontrivial("crafted-pss-sig", m.name, sl, vi, b)
@@ -1560,7 +1566,9 @@ func (e *env) suiteBigE() {
 		schemes = append(schemes, scheme{"OAEP-" + hashName(h), k - 2*h.Size() - 2,
 			func(m []byte) ([]byte, error) { return zrsa.EncryptOAEP(h.New(), e.reader(), &e.zk.PublicKey, m, nil) },
 			func(ct []byte) ([]byte, error) { return zrsa.DecryptOAEP(h.New(), nil, e.zk, ct, nil) },
-			func(m []byte) ([]byte, error) { return stdrsa.EncryptOAEP(h.New(), e.reader(), &comp.PublicKey, m, nil) },
+			func(m []byte) ([]byte, error) {
+				return stdrsa.EncryptOAEP(h.New(), e.reader(), &comp.PublicKey, m, nil)
+			},
 			func(ct []byte) ([]byte, error) { return stdrsa.DecryptOAEP(h.New(), nil, comp, ct, nil) }})
 	}
 	for _, s := range schemes {
